@@ -156,7 +156,14 @@ def check_dataset(t: Tally, defn, doc, files, stream_pkts, use_raw, case, string
             t.violation({"kind": "harness: generator raised"}, case, observed=repr(e)[:200])
             return
         try:
-            ds = xarr.create_dataset(files if len(files) > 1 else files[0], defn, use_raw_values=use_raw)
+            # the documented argument types: one str / Path, or any iterable of them (list, tuple, one-shot generator, Path objects)
+            import pathlib
+            form = (len(files) + sum(len(p) for p in case.get("packets", [])[:3]) + (1 if use_raw else 0)) % 5
+            if len(files) == 1 and form % 2 == 0:
+                arg = files[0] if form == 0 else pathlib.Path(files[0])
+            else:
+                arg = [list(files), tuple(files), (f for f in files), iter([pathlib.Path(f) for f in files]), map(str, files)][form]
+            ds = xarr.create_dataset(arg, defn, use_raw_values=use_raw)
         except Exception as e:  # noqa: BLE001
             t.evals += 1
             t.outcomes["create_dataset-raised"] += 1
@@ -303,7 +310,7 @@ def run(ctx):
         "rule": "one evaluation = one create_dataset call compared cell by cell with packet_generator's items; distinct non-trivial = distinct value packets per field kind",
     }
     return {"level": LEVEL, "tally": tally, "coverage": coverage,
-            "assumptions": ["expected cells are packet_generator's own items (C01 decides those)", "a boolean cell may be stored as 0/1",
+            "assumptions": ["expected cells are packet_generator's own items (C01 decides those)", "the file argument rotates through str, Path, list, tuple, generator, iterator of Paths and map object", "a boolean cell may be stored as 0/1",
                             "integer widths above 64 bits are outside the claim"]}
 
 
